@@ -199,6 +199,37 @@ func CowCTA(c *core.Ctx) {
 			accessor[fb.Decl.Name.Name] = true
 		}
 	}
+	// …or loads it and, when nothing is published yet, initialises through a storing method of the receiver
+	// (`return r.copyOnWrite(keepSnapshot)`): still the snapshot accessor, not a publisher of its own
+	stores := map[string]bool{}
+	for _, fb := range cowMethods {
+		ast.Inspect(fb.Body, func(x ast.Node) bool {
+			if call, ok := x.(*ast.CallExpr); ok && (cellCall(fb, call, "Store") || cellCall(fb, call, "Swap") || cellCall(fb, call, "CompareAndSwap")) {
+				stores[fb.Decl.Name.Name] = true
+			}
+			return true
+		})
+	}
+	for _, fb := range cowMethods {
+		if fb.Decl.Recv == nil || fb.Type.Params.NumFields() != 0 || accessor[fb.Decl.Name.Name] {
+			continue
+		}
+		ld, viaStorer := false, false
+		ast.Inspect(fb.Body, func(x ast.Node) bool {
+			if call, ok := x.(*ast.CallExpr); ok {
+				if cellCall(fb, call, "Load") {
+					ld = true
+				}
+				if callee := onSelf(call, self[fb]); callee != "" && stores[callee] {
+					viaStorer = true
+				}
+			}
+			return true
+		})
+		if ld && viaStorer {
+			accessor[fb.Decl.Name.Name] = true
+		}
+	}
 	for changed := true; changed; {
 		changed = false
 		for _, fb := range cowMethods {
@@ -268,6 +299,7 @@ func CowCTA(c *core.Ctx) {
 	sort.Strings(cowList)
 	c.Table("R-CTA primitives", "reads: "+strings.Join(loaderList, ","), "copy-on-write entry: "+strings.Join(cowList, ","))
 	cowEntryNames = cowNames
+	cowAccessorNames = accessor
 	for _, fb := range cowMethods {
 		recv := self[fb]
 		isRecvCall := func(call *ast.CallExpr, names ...string) bool {
@@ -467,7 +499,53 @@ func CowCTA(c *core.Ctx) {
 			}
 			return true
 		})
-		if badRet {
+		// …nor be the value the method meant to store when the critical section can decide to keep the snapshot
+		// (someone else's value won): then the answer is what is stored, which only the literal knows
+		var intended *ast.Ident
+		if lit != nil && len(lit.Type.Params.List) == 1 && len(lit.Type.Params.List[0].Names) == 1 {
+			om := info.Defs[lit.Type.Params.List[0].Names[0]]
+			keeps := nodeContains(lit.Body, true, func(x ast.Node) bool {
+				ret, ok := x.(*ast.ReturnStmt)
+				return ok && len(ret.Results) == 1 && objOf(info, ret.Results[0]) == om
+			})
+			storedVals, assignedInLit := map[types.Object]bool{}, map[types.Object]bool{}
+			ast.Inspect(lit.Body, func(x ast.Node) bool {
+				as, ok := x.(*ast.AssignStmt)
+				if !ok || len(as.Lhs) != len(as.Rhs) {
+					return true
+				}
+				for i, l := range as.Lhs {
+					if _, isIdx := ast.Unparen(l).(*ast.IndexExpr); isIdx {
+						if o := objOf(info, as.Rhs[i]); o != nil {
+							storedVals[o] = true
+						}
+					} else if o := objOf(info, l); o != nil {
+						assignedInLit[o] = true
+					}
+				}
+				return true
+			})
+			if keeps {
+				ast.Inspect(fb.Body, func(x ast.Node) bool {
+					if _, ok := x.(*ast.FuncLit); ok {
+						return false
+					}
+					ret, ok := x.(*ast.ReturnStmt)
+					if !ok || ret.Pos() < first.End() || len(ret.Results) != 1 {
+						return true
+					}
+					if id, ok := ast.Unparen(ret.Results[0]).(*ast.Ident); ok {
+						if o := info.Uses[id]; o != nil && storedVals[o] && !assignedInLit[o] && (o.Pos() < lit.Pos() || o.Pos() > lit.End()) {
+							intended = id
+						}
+					}
+					return true
+				})
+			}
+		}
+		if intended != nil {
+			c.Add("R-CTA", name+"/result", intended.Pos(), core.Violated, "the method returns "+intended.Name+", the value it meant to store, although the critical section can keep the current snapshot (another goroutine's value won): the loser of a race returns a value that was never stored — concurrent ComputeIfAbsent calls return different values")
+		} else if badRet {
 			c.Add("R-CTA", name+"/result", after[0].Pos(), core.Violated, "the result is read back from the map ("+exprString(after[0])+") after the critical section: a concurrent Removed/Updated makes it differ from what was stored (or panic on a missing key)")
 		} else {
 			c.Add("R-CTA", name+"/result", fb.Decl.Pos(), core.Discharged, "result does not depend on a read after the write")
@@ -744,6 +822,9 @@ func CowRMW(c *core.Ctx, rule string) {
 // publishing method on its own receiver. An operation that publishes more than once — two publishing calls in
 // sequence, or one inside a loop — is visible to concurrent readers in its intermediate states, i.e. it is not applied
 // atomically at one instant. Publishing calls on mutually exclusive branches count once.
+// cowAccessorNames: the snapshot accessors found by CowCTA (they store only to initialise lazily).
+var cowAccessorNames = map[string]bool{}
+
 func CowOnePublish(c *core.Ctx, rule string) {
 	c.Rule(rule, "every method of CopyOnWriteMap publishes at most one new snapshot per call: at most one publishing call (copyOnWrite or a publishing method of the same receiver) on any path, and none inside a loop")
 	p := c.Pkg("mutable")
@@ -776,8 +857,8 @@ func CowOnePublish(c *core.Ctx, rule string) {
 	for changed := true; changed; {
 		changed = false
 		for _, m := range ms {
-			if publishes[m.fb.Decl.Name.Name] {
-				continue
+			if publishes[m.fb.Decl.Name.Name] || cowAccessorNames[m.fb.Decl.Name.Name] {
+				continue // the accessor's lazy initialisation publishes the empty snapshot, not a new version
 			}
 			ast.Inspect(m.fb.Body, func(x ast.Node) bool {
 				if call, ok := x.(*ast.CallExpr); ok && publishes[recvCallee(m, call)] {
